@@ -16,12 +16,41 @@
    `while_rounds`, `switch_spec` ...) are structurally recursive on the LIST of things
    to visit - entries of the container, rounds, arms - and pass one and the same fuel
    F to every run of a sub-term; the theorems state the fuel needed explicitly.
+
+   Contents.
+   A  the defining equations, one step of fuel            (sblock_S, swhile_S, sforeach_S ...)
+   B  more fuel, same result                               sx_mono, sblock_mono ...; converges
+   C  the open scopes stay                                 sblock_keeps_scopes, sblock_return_scopes
+   D  foreach = one run of the body per entry, in order    entries, run_body_over,
+        foreach_visits_each_once (+ _inv, foreach_converges, foreach_not_a_container),
+        entries_array / _string / _hash / _range, normal_loop_visits_all, body_sees_entry
+   E  while, if / else if / else, ternary                  while_unroll, while_runs_k_times,
+        while_is_rounds (+ _inv), if_selects, if_first_truthy, if_none_truthy, ternary_selects
+   F  switch                                               switch_first_match, switch_no_match,
+        switch_is_spec (+ _inv)
+   G  blocks and return                                    block_stops_at, return_propagates ...
+   I  a decidable class of loop bodies meeting D's side condition   tidy_stack_safe
+   H  examples (Module Examples), among them the body that shows the side condition is needed
+
+   What the interpreter does that a reader might not expect (all proved or computed below):
+   - foreach relies on cutting the stack back (drop_residue) to the height remembered in the
+     loop's scope; a body run that pops BELOW that height - `y = f();` with f returning nothing,
+     a lone `x++` - removes the iterator: the loop does not visit the remaining entries but ends
+     in an internal error (Examples.foreach_body_may_eat_the_iterator; y then holds the iterated
+     container, because an assignment stores the container of an iterator it pops);
+   - the subject of a switch is evaluated once per case expression tested, effects included
+     (Examples.switch_subject_evaluated_per_test); several default arms would ALL run, in order
+     (the parser accepts at most one);
+   - a `return` leaves the scopes of the loops it jumps out of open, and their iterators on the
+     stack (sblock_return_scopes, Examples.return_from_the_inside); inside a user-defined function
+     it ends the function only (call_body);
+   - a foreach over a value that is not a container fails with the loop's scope already open.
    Complete proofs only. *)
 From Coq Require Import Floats Lia Bool List Permutation Sorted.
 From EF Require Import Model.Base Gen.Tables Model.Lexer Model.Ast Model.Code Model.Value Model.Env
                        Model.Reflect Model.Builtins Model.Compiler Model.VM Spec.Ops Spec.Eval
                        Spec.Moded Spec.ExecFun.
-From EF Require Proofs.OpsProofs Proofs.ContainerProofs Proofs.DetProofs Proofs.EnvProofs.
+From EF Require Proofs.OpsProofs Proofs.ContainerProofs Proofs.DetProofs Proofs.EnvProofs Proofs.ModedProofs.
 Import ListNotations.
 Open Scope N_scope.
 
@@ -1749,6 +1778,349 @@ Proof.
   apply (return_stmt F); [exact He|lia].
 Qed.
 
+(* ------------------------------------------------------------------ *)
+(* PART I: a decidable class of bodies that satisfy the side condition of the foreach theorem.
+   `Spec.Moded.moded_block` (value-less constructs only in statement position, `++`/`--` directly
+   after the bare name they apply to) is not enough: a call may return nothing, and an operand
+   position then pops a value that was never pushed (Examples.foreach_body_may_eat_the_iterator).
+   Well-moded bodies in which calls occur only as whole expression statements ARE stack-safe. *)
+
+Fixpoint nocall (fuel : nat) (top : bool) (e : expr) {struct fuel} : bool :=
+  match fuel with
+  | O => false
+  | S f =>
+      match e with
+      | ECall _ args => top && forallb (nocall f false) args
+      | EPrefix _ r => nocall f false r
+      | EInfix _ l r => nocall f false l && nocall f false r
+      | ETernary c t x => nocall f false c && nocall f false t && nocall f false x
+      | EArray l => forallb (nocall f false) l
+      | EIndex l i => nocall f false l && nocall f false i
+      | EAssign _ v => nocall f false v
+      | EIf c cns alt => nocall f false c && nocall_block f cns &&
+                         match alt with Some a => nocall_block f a | None => true end
+      | EWhile c b => nocall f false c && nocall_block f b
+      | EForeach _ _ v b => nocall f false v && nocall_block f b
+      | ESwitch v cs => nocall f false v &&
+                        forallb (fun c : choice => forallb (nocall f false) (snd (fst c)) && nocall_block f (snd c)) cs
+      | _ => true       (* literals, names, local, ++/--; a function definition does nothing where it stands *)
+      end
+  end
+with nocall_block (fuel : nat) (l : list stmt) {struct fuel} : bool :=
+  match fuel with
+  | O => false
+  | S f => forallb (fun s => match s with SReturn e => nocall f false e | SExpr e => nocall f true e end) l
+  end.
+
+Definition nocall_stmt (h : nat) (s : stmt) : bool :=
+  match s with SReturn e => nocall h false e | SExpr e => nocall h true e end.
+Definition nocall_choice (h : nat) (c : choice) : bool :=
+  forallb (nocall h false) (snd (fst c)) && nocall_block h (snd c).
+
+Lemma then_inv : forall r k m', then_ r k = XNormal m' -> exists m1, r = XNormal m1 /\ k m1 = XNormal m'.
+Proof. intros [m1| |] k m' H; try discriminate. exists m1. split; [reflexivity|exact H]. Qed.
+Lemma pop1s_inv : forall m k m', pop1s m k = XNormal m' ->
+  exists v s, stk m = v :: s /\ k v (set_stk m s) = XNormal m'.
+Proof. intros m k m' H. unfold pop1s in H. destruct (stk m) as [|v s]; [discriminate|]. exists v, s. auto. Qed.
+Lemma pop2s_inv : forall m k m', pop2s m k = XNormal m' ->
+  exists a b s, stk m = a :: b :: s /\ k a b (set_stk m s) = XNormal m'.
+Proof. intros m k m' H. unfold pop2s in H. destruct (stk m) as [|a [|b s]]; try discriminate. exists a, b, s. auto. Qed.
+Lemma pushr_inv : forall m r m', pushr m r = XNormal m' -> exists v, m' = push m v.
+Proof. intros m [v|x] m' H; [|discriminate]. injection H as <-. exists v. reflexivity. Qed.
+Lemma pop_n_exact : forall vs s acc, pop_n (List.length vs) (vs ++ s) acc = Some (rev vs ++ acc, s).
+Proof.
+  induction vs as [|v vs IH]; intros s acc; [reflexivity|]. cbn [List.length app pop_n rev].
+  rewrite IH, <- app_assoc. reflexivity.
+Qed.
+Lemma not_mutator : forall op, is_mutator op = false -> mutator_op op = None.
+Proof. intros []; cbn; intros H; try reflexivity; discriminate. Qed.
+Lemma postfix_pops : forall f n op m m', sx f (EPostfix n op) m = XNormal m' -> exists v, stk m = v :: stk m'.
+Proof.
+  intros [|f] n op m m' H; [discriminate|]. cbn [ExecFun.sx] in H.
+  destruct (lookup o obj (menv m) n) as [v|]; [|discriminate].
+  destruct (match v with VInt z => _ | VFloat x => _ | _ => None end) as [v'|]; [|discriminate].
+  cbv zeta in H. cbn [stk set_menv] in H. destruct (stk m) as [|t s]; [discriminate|].
+  injection H as <-. exists t. reflexivity.
+Qed.
+Lemma sx_up : forall f e m m', sx f e m = XNormal m' -> sx (S f) e m = XNormal m'.
+Proof. intros f e m m' H. rewrite <- H. apply sx_mono; [lia|rewrite H; reflexivity]. Qed.
+Lemma sblock_up : forall f b m m', sblock f b m = XNormal m' -> sblock (S f) b m = XNormal m'.
+Proof. intros f b m m' H. rewrite <- H. apply sblock_mono; [lia|rewrite H; reflexivity]. Qed.
+
+Notation mop := moded_operand.
+Notation mch := ModedProofs.moded_choice.
+
+Definition TIDY (f : nat) : Prop :=
+  (forall g h e m m', mop g e = true -> nocall h false e = true ->
+     sx f e m = XNormal m' -> exists v, stk m' = v :: stk m) /\
+  (forall g h l m m', forallb (mop g) l = true -> forallb (nocall h false) l = true ->
+     sxs f l m = XNormal m' -> exists vs, List.length vs = List.length l /\ stk m' = vs ++ stk m) /\
+  (forall g h e m m', moded_stmt_expr g e = true -> nocall h true e = true -> (forall n op, e <> EPostfix n op) ->
+     sx f e m = XNormal m' -> exists r, stk m' = r ++ stk m) /\
+  (forall g h b m m', forallb (ModedProofs.moded_stmt g) b = true -> postfix_paired b = true ->
+     forallb (nocall_stmt h) b = true ->
+     sblock f b m = XNormal m' -> exists r, stk m' = r ++ stk m) /\
+  (forall g h c body m m', mop g c = true -> nocall h false c = true ->
+     moded_block g body = true -> nocall_block h body = true ->
+     swhile f c body m = XNormal m' -> exists r, stk m' = r ++ stk m) /\
+  (forall g h idx ident it off body m m', moded_block g body = true -> nocall_block h body = true ->
+     env_mark (menv m) = Some (N.succ (lenN (stk m))) ->
+     sforeach f idx ident it off body m = XNormal m' -> stk m' = stk m) /\
+  (forall g h v rest all m m', mop g v = true -> nocall h false v = true ->
+     forallb (mch g) rest = true -> forallb (nocall_choice h) rest = true ->
+     forallb (mch g) all = true -> forallb (nocall_choice h) all = true ->
+     sswitch f v rest all m = XNormal m' -> exists r, stk m' = r ++ stk m) /\
+  (forall g h v es blk rest all m m', mop g v = true -> nocall h false v = true ->
+     forallb (mop g) es = true -> forallb (nocall h false) es = true ->
+     moded_block g blk = true -> nocall_block h blk = true ->
+     forallb (mch g) rest = true -> forallb (nocall_choice h) rest = true ->
+     forallb (mch g) all = true -> forallb (nocall_choice h) all = true ->
+     scase f v es blk rest all m = XNormal m' -> exists r, stk m' = r ++ stk m) /\
+  (forall g h all m m', forallb (mch g) all = true -> forallb (nocall_choice h) all = true ->
+     sdefaults f all m = XNormal m' -> exists r, stk m' = r ++ stk m).
+
+Lemma block_of_stmts : forall f,
+  (forall g h b m m', forallb (ModedProofs.moded_stmt g) b = true -> postfix_paired b = true ->
+     forallb (nocall_stmt h) b = true ->
+     sblock f b m = XNormal m' -> exists r, stk m' = r ++ stk m) ->
+  forall g h b m m', moded_block g b = true -> nocall_block h b = true ->
+     sblock f b m = XNormal m' -> exists r, stk m' = r ++ stk m.
+Proof.
+  intros f H g h b m m' Hm Hn Hr.
+  destruct (ModedProofs.moded_block_inv g b Hm) as (g' & -> & Hs & Hp).
+  destruct h as [|h']; [discriminate|]. cbn [nocall_block] in Hn.
+  apply (H g' h' b m m' Hs Hp Hn Hr).
+Qed.
+
+Ltac inv_then H m1 E :=
+  let H' := fresh in apply then_inv in H; destruct H as (m1 & E & H'); rename H' into H.
+Ltac split_and := repeat match goal with
+  | H : _ && _ = true |- _ => apply andb_true_iff in H; destruct H
+  end.
+
+Lemma operand_step : forall f, TIDY f ->
+  forall g h e m m', mop g e = true -> nocall h false e = true ->
+  sx (S f) e m = XNormal m' -> exists v, stk m' = v :: stk m.
+Proof.
+  intros f (Hop & Hops & _) g h e m m' Hm Hn H.
+  destruct g as [|g]; [discriminate|]. destruct h as [|h]; [discriminate|].
+  destruct e as [t z|t x|s|b|v fl|n|op r|op l r|n op|c t e'|l|l|l i|fn args|n v|n|c cns alt|c body|idx ident v body|n ps b|v cs];
+    cbn [moded_operand valueless negb andb] in Hm; try discriminate Hm.
+  - injection H as <-. eexists. reflexivity.
+  - injection H as <-. eexists. reflexivity.
+  - injection H as <-. eexists. reflexivity.
+  - injection H as <-. eexists. reflexivity.
+  - injection H as <-. eexists. reflexivity.
+  - (* EIdent *) cbn [ExecFun.sx] in H. apply pushr_inv in H. destruct H as (v & ->). eexists. reflexivity.
+  - (* EPrefix *) cbn [ExecFun.sx nocall] in H, Hn. inv_then H m1 E1.
+    apply pop1s_inv in H. destruct H as (v & s & Es & H). apply pushr_inv in H. destruct H as (v' & ->).
+    destruct (Hop g h r m m1 Hm Hn E1) as (v0 & E0). rewrite Es in E0. injection E0 as _ ->.
+    eexists. reflexivity.
+  - (* EInfix *) cbn [nocall] in Hn. split_and.
+    destruct (is_mutator op) eqn:Emu; [discriminate|]. cbn [negb andb] in *. split_and.
+    cbn [ExecFun.sx] in H. rewrite (not_mutator op Emu) in H.
+    inv_then H m1 E1. inv_then H m2 E2. apply pop2s_inv in H. destruct H as (b & a & s & Es & H).
+    apply pushr_inv in H. destruct H as (v' & ->).
+    destruct (Hop g h l m m1) as (v1 & S1); try assumption.
+    destruct (Hop g h r m1 m2) as (v2 & S2); try assumption.
+    rewrite S2, S1 in Es. injection Es as _ _ <-. eexists. reflexivity.
+  - (* ETernary *) cbn [nocall] in Hn. split_and. rewrite sx_ternary_S in H. inv_then H m1 E1.
+    apply pop1s_inv in H. destruct H as (v & s & Es & H).
+    destruct (Hop g h c m m1) as (v1 & S1); try assumption. rewrite Es in S1. injection S1 as _ ->.
+    destruct (truthy v).
+    + destruct (Hop g h t (set_stk m1 (stk m)) m') as (v2 & S2); try assumption. exists v2. exact S2.
+    + destruct (Hop g h e' (set_stk m1 (stk m)) m') as (v2 & S2); try assumption. exists v2. exact S2.
+  - (* EArray *) cbn [nocall] in Hn. cbn [ExecFun.sx] in H. inv_then H m1 E1.
+    destruct (Hops g h l m m1) as (vs & Hl & S1); try assumption.
+    rewrite S1, <- Hl, pop_n_exact in H. injection H as <-. eexists. reflexivity.
+  - (* EHash *) discriminate H.
+  - (* EIndex *) cbn [nocall] in Hn. split_and. cbn [ExecFun.sx] in H.
+    inv_then H m1 E1. inv_then H m2 E2. apply pop2s_inv in H. destruct H as (b & a & s & Es & H).
+    apply pushr_inv in H. destruct H as (v' & ->).
+    destruct (Hop g h l m m1) as (v1 & S1); try assumption.
+    destruct (Hop g h i m1 m2) as (v2 & S2); try assumption.
+    rewrite S2, S1 in Es. injection Es as _ _ <-. eexists. reflexivity.
+  - (* ECall *) cbn [nocall andb] in Hn. discriminate Hn.
+Qed.
+
+Lemma nocall_top : forall h e, (forall fn args, e <> ECall fn args) -> nocall h true e = true -> nocall h false e = true.
+Proof. intros [|h] e Hne H; [discriminate|]. destruct e; try exact H. exfalso. eapply Hne. reflexivity. Qed.
+
+Lemma call_body_tidy : forall (xa : list expr -> mstate -> sres) (xb : list stmt -> mstate -> sres) oname args m m',
+  (forall m1, xa args m = XNormal m1 -> exists vs, List.length vs = List.length args /\ stk m1 = vs ++ stk m) ->
+  call_body xa xb oname args m = XNormal m' -> exists r, stk m' = r ++ stk m.
+Proof.
+  intros xa xb [name|] args m m' Ha H; [|discriminate]. unfold call_body in H.
+  inv_then H m1 E1. destruct (Ha m1 E1) as (vs & Hl & S1).
+  rewrite S1, <- Hl, pop_n_exact in H.
+  destruct (fn_get name fns) as [[bn|k]|].
+  - destruct (call_builtin o bn _) as [r|]; [|discriminate]. destruct (of_bres r) as [v|]; [|discriminate].
+    injection H as <-. destruct v; try (eexists [_]; reflexivity). exists []. reflexivity.
+  - cbv zeta in H. destruct (host_call k _) as [v|]; [|discriminate].
+    injection H as <-. destruct v; try (eexists [_]; reflexivity). exists []. reflexivity.
+  - destruct (af_get name afs) as [af|]; [|discriminate].
+    destruct (negb _); [discriminate|]. destruct (negb _ && _); [discriminate|]. cbv zeta in H.
+    destruct (xb (abody af) _) as [m2|out m2|]; [| |discriminate].
+    + injection H as <-. exists []. reflexivity.
+    + injection H as <-. destruct out; try (eexists [_]; reflexivity). exists []. reflexivity.
+Qed.
+
+Lemma stmt_step : forall f, TIDY f ->
+  forall g h e m m', moded_stmt_expr g e = true -> nocall h true e = true -> (forall n op, e <> EPostfix n op) ->
+  sx (S f) e m = XNormal m' -> exists r, stk m' = r ++ stk m.
+Proof.
+  intros f T g h e m m' Hm Hn Hne H.
+  pose proof (operand_step f T) as Hop1.
+  destruct T as (Hop & Hops & Hst & Hstmts & Hwh & Hfe & Hsw & Hcs & Hdf).
+  pose proof (block_of_stmts f Hstmts) as Hblk.
+  assert (Hval : forall g, mop g e = true -> (forall fn args, e <> ECall fn args) -> exists r, stk m' = r ++ stk m).
+  { intros g0 Hm0 Hnc. destruct (Hop1 g0 h e m m' Hm0 (nocall_top h e Hnc Hn) H) as (v & Sv). exists [v]. exact Sv. }
+  destruct g as [|g]; [discriminate|]. destruct h as [|h]; [discriminate|].
+  destruct e as [t z|t x|s|b|v fl|n|op r|op l r|n op|c t e'|l|l|l i|fn args|n v|n|c cns alt|c body|idx ident v body|n ps b|v cs];
+    cbn [moded_stmt_expr] in Hm; try (apply (Hval g Hm); intros; discriminate).
+  - (* EInfix *) destruct (is_mutator op) eqn:Emu; [|apply (Hval g Hm); intros; discriminate].
+    cbn [nocall] in Hn. split_and. cbn [ExecFun.sx] in H.
+    inv_then H m1 E1. inv_then H m2 E2.
+    destruct (Hop g h l m m1) as (v1 & S1); try assumption.
+    destruct (Hop g h r m1 m2) as (v2 & S2); try assumption.
+    assert (exists bop, mutator_op op = Some bop) as (bop & Eb) by (destruct op; try discriminate Emu; eexists; reflexivity).
+    rewrite Eb in H.
+    destruct l; try discriminate. apply pop2s_inv in H. destruct H as (b' & a & s & Es & H).
+    destruct (spec_binop o bop a b'); [|discriminate]. injection H as <-.
+    rewrite S2, S1 in Es. injection Es as _ _ <-. exists []. reflexivity.
+  - (* EPostfix *) exfalso. eapply Hne. reflexivity.
+  - (* ECall *) rewrite sx_call_S in H. cbn [nocall andb] in Hn.
+    eapply call_body_tidy; [|exact H]. intros m1 E1. destruct g as [|g]; [discriminate|].
+    cbn [moded_operand valueless negb andb] in Hm.
+    apply (Hops g h args m m1 Hm Hn E1).
+  - (* EAssign *) cbn [nocall] in Hn. cbn [ExecFun.sx] in H. inv_then H m1 E1.
+    apply pop1s_inv in H. destruct H as (x & s & Es & H). injection H as <-.
+    destruct (Hop g h v m m1) as (v1 & S1); try assumption. rewrite S1 in Es. injection Es as _ <-.
+    exists []. reflexivity.
+  - (* ELocal *) injection H as <-. exists []. reflexivity.
+  - (* EIf *) cbn [nocall] in Hn. split_and. rewrite sx_if_S in H. inv_then H m1 E1.
+    apply pop1s_inv in H. destruct H as (x & s & Es & H).
+    destruct (Hop g h c m m1) as (v1 & S1); try assumption. rewrite S1 in Es. injection Es as _ <-.
+    destruct (truthy x).
+    + apply (Hblk g h cns (set_stk m1 (stk m)) m'); assumption.
+    + destruct alt as [a|]; [|injection H as <-; exists []; reflexivity].
+      apply (Hblk g h a (set_stk m1 (stk m)) m'); assumption.
+  - (* EWhile *) cbn [nocall] in Hn. split_and. rewrite sx_while_S in H. apply (Hwh g h c body m m'); assumption.
+  - (* EForeach *) cbn [nocall] in Hn. split_and. rewrite sx_foreach_S in H. inv_then H m1 E1. cbv zeta in H.
+    destruct (Hop g h v m m1) as (v1 & S1); try assumption. rewrite S1 in H.
+    destruct (iterable v1); [|discriminate].
+    apply (Hfe g h) in H; try assumption.
+    + cbn [stk] in H. exists []. exact H.
+    + cbn. f_equal. unfold lenN. cbn [List.length]. lia.
+  - (* EFunction *) injection H as <-. exists []. reflexivity.
+  - (* ESwitch *) cbn [nocall] in Hn. split_and. rewrite sx_switch_S in H.
+    apply (Hsw g h v cs cs m m'); assumption.
+Qed.
+
+Lemma tidy_all : forall f, TIDY f.
+Proof.
+  induction f as [|f IH].
+  - unfold TIDY. repeat split; intros; discriminate.
+  - pose proof (operand_step f IH) as Hop1. pose proof (stmt_step f IH) as Hst1.
+    pose proof IH as (Hop & Hops & Hst & Hstmts & Hwh & Hfe & Hsw & Hcs & Hdf).
+    pose proof (block_of_stmts f Hstmts) as Hblk.
+    unfold TIDY. repeat split.
+    + exact Hop1.
+    + (* sxs *) intros g h l m m' Hm Hn H. rewrite sxs_S in H. destruct l as [|e l].
+      * injection H as <-. exists []. split; reflexivity.
+      * cbn [forallb] in Hm, Hn. split_and. inv_then H m1 E1.
+        destruct (Hop g h e m m1) as (v & S1); try assumption.
+        destruct (Hops g h l m1 m') as (vs & Hl & S2); try assumption.
+        exists (vs ++ [v]). split; [rewrite app_length; cbn; lia|]. rewrite S2, S1, <- app_assoc. reflexivity.
+    + exact Hst1.
+    + (* statements of a block *)
+      intros g h b m m' Hm Hp Hn H. rewrite sblock_S in H. destruct b as [|s b].
+      * injection H as <-. exists []. reflexivity.
+      * cbn [forallb] in Hm, Hn. split_and. inv_then H m1 E1.
+        destruct (ModedProofs.postfix_paired_cases s b Hp) as (Hnp & [(n & n' & op & rest & -> & -> & Hp')|Hp']).
+        -- (* x; ++ *)
+           destruct f as [|f1]; [discriminate|]. rewrite sstmt_S in E1.
+           destruct f1 as [|f2]; [discriminate|]. cbn [ExecFun.sx] in E1.
+           apply pushr_inv in E1. destruct E1 as (v & ->).
+           rewrite sblock_S in H. inv_then H m2 E2. rewrite sstmt_S in E2.
+           apply postfix_pops in E2. destruct E2 as (v' & E2). cbn [push set_stk stk] in E2. injection E2 as _ E2.
+           cbn [forallb] in *. split_and.
+           apply sblock_up in H.
+           destruct (Hstmts g h rest m2 m') as (r & Sr); try assumption.
+           exists r. rewrite Sr, <- E2. reflexivity.
+        -- destruct f as [|f1]; [discriminate|]. rewrite sstmt_S in E1. destruct s as [e|e].
+           ++ inv_then E1 m2 E2. apply pop1s_inv in E1. destruct E1 as (? & ? & _ & E1). discriminate.
+           ++ apply sx_up in E1.
+              destruct (Hst g h e m m1) as (r1 & S1); try assumption.
+              { intros n op ->. eapply Hnp. reflexivity. }
+              destruct (Hstmts g h b m1 m') as (r2 & S2); try assumption.
+              exists (r2 ++ r1). rewrite S2, S1, app_assoc. reflexivity.
+    + (* while *)
+      intros g h c body m m' Hmc Hnc Hmb Hnb H. rewrite swhile_S in H. inv_then H m1 E1.
+      apply pop1s_inv in H. destruct H as (x & s & Es & H).
+      destruct (Hop g h c m m1) as (v1 & S1); try assumption. rewrite S1 in Es. injection Es as _ <-.
+      destruct (truthy x); [|injection H as <-; exists []; reflexivity].
+      inv_then H m3 E3. destruct (Hblk g h body _ m3 Hmb Hnb E3) as (r1 & S3). cbn [stk set_stk] in S3.
+      destruct (Hwh g h c body m3 m') as (r2 & S4); try assumption.
+      exists (r2 ++ r1). rewrite S4, S3, app_assoc. reflexivity.
+    + (* foreach *)
+      intros g h idx ident it off body m m' Hmb Hnb Hmark H. rewrite sforeach_S in H.
+      unfold foreach_next in H. destruct (iter_next o it off) as [[[x k]|]|] eqn:En; [| |discriminate].
+      * cbv zeta in H. change (mkM (VIter it (off + 1) :: stk m) _ (trace m) (polls m))
+          with (body_entry idx ident it off k x m) in H.
+        inv_then H m1 E1. destruct (Hblk g h body _ m1 Hmb Hnb E1) as (r1 & S1). cbn [stk body_entry] in S1.
+        destruct (back_at_head f idx ident it off body m k x m1 r1 Hmark E1 S1) as (Hd & Hmark').
+        rewrite Hd in H. exact (Hfe g h _ _ _ _ _ _ _ Hmb Hnb Hmark' H).
+      * destruct (env_pop (menv m)); [|discriminate]. injection H as <-. reflexivity.
+    + (* switch *)
+      intros g h v rest all m m' Hmv Hnv Hmr Hnr Hma Hna H. rewrite sswitch_S in H.
+      destruct rest as [|[[[] es] blk] rest].
+      * apply (Hdf g h all m m'); assumption.
+      * cbn [forallb] in Hmr, Hnr. split_and. apply (Hsw g h v rest all m m'); assumption.
+      * cbn [forallb] in Hmr, Hnr. split_and.
+        unfold ModedProofs.moded_choice, nocall_choice in *. cbn [fst snd] in *. split_and.
+        apply (Hcs g h v es blk rest all m m'); assumption.
+    + (* case *)
+      intros g h v es blk rest all m m' Hmv Hnv Hme Hne Hmb Hnb Hmr Hnr Hma Hna H. rewrite scase_S in H.
+      destruct es as [|e es]; [apply (Hsw g h v rest all m m'); assumption|].
+      cbn [forallb] in Hme, Hne. split_and.
+      inv_then H m1 E1. inv_then H m2 E2. apply pop2s_inv in H. destruct H as (c & subj & s & Es & H).
+      destruct (Hop g h v m m1) as (v1 & S1); try assumption.
+      destruct (Hop g h e m1 m2) as (v2 & S2); try assumption.
+      rewrite S2, S1 in Es. injection Es as _ _ <-.
+      destruct (vm_case o subj c) as [t|]; [|discriminate]. destruct (truthy t).
+      * apply (Hblk g h blk (set_stk m2 (stk m)) m'); assumption.
+      * apply (Hcs g h v es blk rest all (set_stk m2 (stk m)) m'); assumption.
+    + (* defaults *)
+      intros g h all m m' Hma Hna H. rewrite sdefaults_S in H.
+      destruct all as [|[[[] es] blk] all]; [injection H as <-; exists []; reflexivity| |].
+      * cbn [forallb] in Hma, Hna. split_and.
+        unfold ModedProofs.moded_choice, nocall_choice in *. cbn [fst snd] in *. split_and.
+        inv_then H m1 E1. destruct (Hblk g h blk m m1) as (r1 & S1); try assumption.
+        destruct (Hdf g h all m1 m') as (r2 & S2); try assumption.
+        exists (r2 ++ r1). rewrite S2, S1, app_assoc. reflexivity.
+      * cbn [forallb] in Hma, Hna. split_and. apply (Hdf g h all m m'); assumption.
+Qed.
+
+(* WELL-MODED BODIES WITHOUT OPERAND CALLS SATISFY THE SIDE CONDITION - for every state and fuel *)
+Theorem tidy_stack_safe : forall g h body,
+  moded_block g body = true -> nocall_block h body = true -> stack_safe body.
+Proof.
+  intros g h body Hm Hn fuel m m' H. destruct (tidy_all fuel) as (_ & _ & _ & Hstmts & _).
+  apply (block_of_stmts fuel Hstmts g h body m m' Hm Hn H).
+Qed.
+(* ... so for such bodies foreach is the fold, unconditionally *)
+Corollary foreach_visits_each_once_tidy : forall g h idx ident v body F m m1 c s es r,
+  moded_block g body = true -> nocall_block h body = true ->
+  sx F v m = XNormal m1 -> stk m1 = c :: s -> entries c = Some es ->
+  run_body_over F idx ident body c 0 es (loop_state m1 s) = r -> is_fuel r = false ->
+  forall fuel, (F + List.length es + 2 <= fuel)%nat -> sx fuel (EForeach idx ident v body) m = r.
+Proof.
+  intros g h idx ident v body F m m1 c s es r Hm Hn Hv Hs He Hr Hf fuel Hfuel.
+  apply (foreach_visits_each_once idx ident v body F m m1 c s es r); try assumption.
+  apply stack_safe_bodies_safe. apply (tidy_stack_safe g h); assumption.
+Qed.
+
 End Spec.
 
 (* ------------------------------------------------------------------ *)
@@ -1940,5 +2312,20 @@ Proof. eexists. vm_compute. repeat split; reflexivity. Qed.
 (* running off the end is the normal completion *)
 Example off_the_end : sblock o0 [] HNil [] 5 [asg "a" (lit 1)] m0 = XNormal (glob [("a", VInt 1)]).
 Proof. vm_compute. reflexivity. Qed.
+
+(* 9. body1 above belongs to the decidable class of Part I, hence is stack-safe for every state *)
+Example body1_is_tidy : moded_block 5 body1 = true /\ nocall_block 5 body1 = true.
+Proof. split; vm_compute; reflexivity. Qed.
+Example body1_stack_safe : forall o fns obj afs, stack_safe o fns obj afs body1.
+Proof. intros. apply (tidy_stack_safe o fns obj afs 5 5); vm_compute; reflexivity. Qed.
+
+(* 10. the subject of a switch is evaluated once per case expression tested: a host call in the
+       subject is made twice when the second case expression is the one that matches *)
+Definition fns10 : fnmap := [(L "f", FHost (HKConst (VInt 2)))].
+Definition sw10 : expr :=
+  ESwitch (ECall (var "f") []) [ (false, [lit 1; lit 2; lit 3], [asg "a" (lit 1)]); (true, [], []) ].
+Example switch_subject_evaluated_per_test : exists m',
+  sx o0 fns10 HNil [] 12 sw10 m0 = XNormal m' /\ List.length (trace m') = 2%nat /\ stk m' = [].
+Proof. eexists. vm_compute. repeat split; reflexivity. Qed.
 
 End Examples.
